@@ -145,6 +145,16 @@ def ta_state_findings(rec, cfg, machine, prev_grants=None):
             # a negative Available may also be inherited from an oversubscribed ancestor/descendant chain
             sig = 'descendant-of-slicing-grant' if (sliced_above or any(f['sig'] == 'descendant-of-slicing-grant' for f in out)) else 'negative-available'
             out.append(F('C03', 'available-nonnegative', sig, 'zone %s reports cpu Available %s' % (pn, av), seq))
+    # free sets stay inside the sets they are drawn from: a kernel-isolated CPU never turns up among the sharable ones
+    isolated_all = set().union(*[set(p['iso']) for p in ta['pools']] or [set()])
+    for p in ta['pools']:
+        if set(p['free_shar']) - set(p['shar']) or set(p['free_shar']) & isolated_all:
+            for prop, clause in (('C01', 'exclusive-not-in-shared-set'), ('C03', 'shared-capacity'), ('C09', 'pristine-capacity')):
+                out.append(F(prop, clause, 'free-shared-set-outside-sharable',
+                             'pool %s: free shared set %s holds CPUs that are not sharable CPUs of the pool (%s), or are kernel-isolated' % (p['name'], p['free_shar'], p['shar']), seq))
+        if set(p['free_iso']) - set(p['iso']):
+            out.append(F('C01', 'exclusive-not-in-shared-set', 'free-isolated-set-outside-isolated',
+                         'pool %s: free isolated set %s is not within its isolated CPUs %s' % (p['name'], p['free_iso'], p['iso']), seq))
     # ledger: granted == sum of portions of grants at that pool
     for p in ta['pools']:
         s_sh = sum(g['portion'] for g in gl if g['pool'] == p['name'] and g['cputype'] == 'normal')
